@@ -494,6 +494,12 @@ def install(reg):
         out.append((ok, v))
         return out
 
+    @ext('set.add')
+    def _sadd(ex, st, args, kw, node):
+        ex.dict_set(st, args[0], args[1], VNone())
+        return [(st, VNone())]
+    reg.externals['dict.add'] = _sadd
+
     @ext('builtins.tuple')
     def _tuple(ex, st, args, kw, node):
         if not args:
